@@ -126,6 +126,7 @@ DoTamperField(f, j, pos, m) ==
   /\ TamperField(f, j)
   /\ (IsAlias(f) => pos = "last" /\ m = AliasMask(f, j))
   /\ (~IsAlias(f) => pos \in PosSel /\ m \in Masks)
+  /\ (f \in {"dalg", "ealg", "hdalgs", "calg"} => pos = "first")   \* first octet of the OBJECT IDENTIFIER: always another, unknown identifier
   /\ (f = "digesttail" => pos = "last")         \* beyond the octets an ECDSA P-256 signature covers
   /\ (f = "content" /\ sc.digestOnly /\ DigestCover(sc) < HashSize(sc.signers[1].dalg) => pos = "first")
   /\ (f = "certbody" => m = 1)                  \* PrintableString: other masks leave the character set and the certificate is refused
